@@ -167,7 +167,7 @@ class Layout:
         return g * self.gs + 1 + self.k * n + t
 
 
-REAL_CAND = [Fraction(x) for x in (2, 3, 5, 7, -2, -3, -5, -7, 11, -11)] + [Fraction(3, 2), Fraction(-1, 2), Fraction(5, 2), Fraction(-3, 2), Fraction(7, 2)]
+REAL_CAND = [Fraction(x) for x in (2, 3, 5, 7, -2, -3, -5, -7, 11, -11, 13, -13, 6, -6, 10, -10, 17, -17)] + [Fraction(a, 2) for a in (3, -1, 5, -3, 7, -5, 9, -7, 11, -13, 15)]
 SQUARES = [Fraction(4), Fraction(9), Fraction(1, 4), Fraction(9, 4), Fraction(16), Fraction(25, 4)]
 
 
@@ -190,11 +190,12 @@ class ExpPool:
             def fresh(square=False):
                 for _ in range(1000):
                     if sl.cm:
-                        v = Cx(rng.choice([1, 2, 3, -1, -2, -3]), rng.choice([1, 2, -1, -2, 3]))
+                        v = Cx(rng.choice([1, 2, 3, 4, 5, -1, -2, -3, -4, -5]), rng.choice([1, 2, 3, 4, -1, -2, -3, -4]))
                     else:
                         v = Cx(rng.choice(SQUARES if square else REAL_CAND))
                     key = (v.re, v.im)
-                    if key not in used and (abs(v.re), abs(v.im)) not in {(abs(a), abs(b)) for a, b in used}:
+                    # distinct, and not the negative or the conjugate of a value in use
+                    if not ({key, (-v.re, -v.im), (v.re, -v.im), (-v.re, v.im)} & used):
                         used.add(key)
                         return v
                 raise MachineryError("environment generator ran out of distinct values")
@@ -544,7 +545,7 @@ def lin_class(vals, lay, n):
             lin.add(eq3(iv, _mul(b, im)))
             aff.add(eq3(d(iv), _mul(d(b), im)))
     cls = "no" if "fail" in lin else "unknown" if "undef" in lin else "yes"
-    kind = "-" if cls != "no" else "affine" if aff == {"ok"} else "nonlinear"
+    kind = "-" if cls != "no" else "nonlinear" if "fail" in aff else "unknown" if "undef" in aff else "affine"
     return cls, kind
 
 
@@ -803,7 +804,7 @@ def judge(col, sl, pool, recs, results, tv=None, ctx=None):
             if "unknown" in (mcl["cls"], rcl[0]):
                 col.count("semantic_class_undefined_on_one_side")
                 continue
-            if mcl["cls"] != rcl[0] or mcl["kind"] != rcl[1]:
+            if mcl["cls"] != rcl[0] or (mcl["kind"] != rcl[1] and "unknown" not in (mcl["kind"], rcl[1])):
                 col.sembinding.append(f"{prog_txt} argument {n}: model {mcl['cls']}/{mcl['kind']} real {rcl[0]}/{rcl[1]}")
         # the model's verdict on ITS term vs the real verdict (differences = ufl simplified the term)
         if (r["real"][0]["v"] == "accept") != rec["acc"]["c"]:
